@@ -85,3 +85,59 @@ package langserver
 //@   at call append#0 before assert[C11,edit-filed-under-the-occurrence-document] arg0 == edit.Changes[uriStr] && hits("GetFileDocumentURI#0") == hits("LocToRange#0")
 //@   loop range:referenVecs invariant [C11] hits("GetFileDocumentURI#0") == hits("LocToRange#0")
 //@ end
+
+// ---- C08: what the client is left holding (publish / clear bookkeeping) ----
+// fileErrorMap is the server's table of saved diagnostics, fileChangeErrorMap the table of live (unsaved
+// buffer) syntax errors. A file with an entry in fileChangeErrorMap shows exactly those; otherwise it shows
+// its saved diagnostics.
+
+// every error of the list becomes one diagnostic of the one publish for that file
+//@ func (*LspServer).pushFileErrList
+//@   props C08
+//@   at call sendDiagnostics#0 before assert[one-diagnostic-per-error] len(arg2.Diagnostics) == len(fileErrVec)
+//@   loop range:fileErrVec invariant len(diagnostics.Diagnostics) == rangeindex + 1 && rangeindex + 1 <= len(fileErrVec)
+//@   ensures[published-once] hits("sendDiagnostics#0") == 1
+//@ end
+
+//@ func (*LspServer).ClearOneFileDiagnostic
+//@   props C08
+//@   at call sendDiagnostics#0 before assert[clear-is-an-empty-publish] len(arg2.Diagnostics) == 0 && arg2.Diagnostics != nil
+//@ end
+
+// saved table -> client, after an analysis changed it
+//@ func (*LspServer).pushAllDiagnosticsAgain
+//@   props C08
+//@   at call pushFileErrList#* before assert[saved-diagnostics-never-pushed-over-live-syntax-errors] !has(l.fileChangeErrorMap, arg2)
+//@   at call ClearOneFileDiagnostic#0 before assert[saved-clear-never-wipes-live-syntax-errors] !has(l.fileChangeErrorMap, arg2)
+//@   at call pushFileErrList#* before assert[pushes-the-new-list-of-that-file] streq(arg2, strFile) && arg3 == newErrList
+//@   at call ClearOneFileDiagnostic#0 before assert[clears-only-files-without-diagnostics-now] streq(arg2, strFile) && !has(fileErrorMap, strFile)
+//@   ensures[table-replaced-by-the-new-analysis] l.fileErrorMap == fileErrorMap
+//@ end
+
+// live errors of an unsaved buffer replace what the file showed
+//@ func (*LspServer).InsertChangeFileErr
+//@   props C08
+//@   at call pushFileChangeDiagnostic#0 before assert[live-errors-recorded-then-shown] has(l.fileChangeErrorMap, strFile) && l.fileChangeErrorMap[strFile] == errList && streq(arg2, strFile)
+//@ end
+
+// the buffer is syntactically fine again: its live errors go and the saved non-syntax diagnostics come back
+//@ func (*LspServer).ClearChangeFileErr
+//@   props C08
+//@   at call pushFileDiagnostic#0 before assert[saved-non-syntax-diagnostics-restored] !has(l.fileChangeErrorMap, strFile) && hits("ClearOneFileDiagnostic#0") == 1 && streq(arg2, strFile) && arg3
+//@ end
+
+// save: no live errors remain; the file shows its saved diagnostics (all of them) or nothing
+//@ func (*LspServer).SaveOneFilePushAgain
+//@   props C08
+//@   at call pushFileDiagnostic#0 before assert[saved-diagnostics-shown-in-full] !has(l.fileChangeErrorMap, strFile) && has(l.fileErrorMap, strFile) && !arg3 && streq(arg2, strFile)
+//@   at call ClearOneFileDiagnostic#0 before assert[nothing-to-show] !has(l.fileChangeErrorMap, strFile) && !has(l.fileErrorMap, strFile) && streq(arg2, strFile)
+//@   ensures[exactly-one-publish] hits("pushFileDiagnostic#0") + hits("ClearOneFileDiagnostic#0") == 1
+//@ end
+
+// the filtered re-publish: every saved error except syntax errors when asked to ignore them
+//@ func (*LspServer).pushFileDiagnostic
+//@   props C08
+//@   at call append#0 before assert[syntax-errors-dropped-only-when-asked] !(oneErr.ErrType == common.CheckErrorSyntax && ignoreSyntax)
+//@   loop range:fileErrVec step [every-other-error-is-published] !(oneErr.ErrType == common.CheckErrorSyntax && ignoreSyntax)
+//@        ==> len(diagnostics.Diagnostics) == prev(len(diagnostics.Diagnostics)) + 1
+//@ end
